@@ -42,6 +42,9 @@ type FunSpec struct {
 	// Calls: statement source -> {assigned variable -> "param:type"}: the statement is an opaque call whose
 	// results are fresh parameters of the generated function.
 	Calls map[string]map[string]string `json:"calls"`
+	// ExitCode: the fragment is (part of) a loop body; the result gets a leading Int: 0 = fell off the end,
+	// 1 = continue, 2 = break, 3 = return
+	ExitCode bool `json:"exitcode"`
 }
 type ConstSpec struct {
 	Lean string `json:"lean"`
@@ -100,6 +103,21 @@ func loadAllConsts() {
 		}
 		for _, d := range f.Decls {
 			gd, ok := d.(*ast.GenDecl)
+			if ok && gd.Tok == token.VAR {
+				// package-level `var X T = <constant expression>` is treated like a constant (its initial value)
+				for _, sp := range gd.Specs {
+					vs := sp.(*ast.ValueSpec)
+					if len(vs.Values) == len(vs.Names) {
+						for _, n := range vs.Names {
+							if _, dup := consts[n.Name]; !dup {
+								consts[n.Name] = vs
+								constI[n.Name] = 0
+							}
+						}
+					}
+				}
+				continue
+			}
 			if !ok || gd.Tok != token.CONST {
 				continue
 			}
@@ -120,9 +138,20 @@ func loadAllConsts() {
 	}
 }
 
+var stdConsts = map[string]int64{
+	"binary.MaxVarintLen16": 3, "binary.MaxVarintLen32": 5, "binary.MaxVarintLen64": 10,
+	"math.MaxInt8": 127, "math.MaxInt16": 32767, "math.MaxInt32": 2147483647, "math.MaxInt64": 9223372036854775807,
+	"math.MinInt32": -2147483648, "math.MaxUint8": 255, "math.MaxUint16": 65535, "math.MaxUint32": 4294967295,
+}
+
 // evalConst evaluates an integer constant expression.
 func evalConst(e ast.Expr, iota int) (int64, error) {
 	switch e := e.(type) {
+	case *ast.SelectorExpr:
+		if v, ok := stdConsts[src(e)]; ok {
+			return v, nil
+		}
+		return 0, fmt.Errorf("unknown selector constant %s", src(e))
 	case *ast.BasicLit:
 		if e.Kind == token.INT {
 			v, err := strconv.ParseInt(e.Value, 0, 64)
@@ -320,6 +349,11 @@ func (t *trans) expr(x ast.Expr, e *env, want string) (string, string) {
 			return lit(v), "untyped"
 		}
 		return t.fail("identifier %s is neither a declared variable nor a constant", s), want
+	case *ast.SelectorExpr:
+		if v, ok := stdConsts[s]; ok {
+			return lit(v), "untyped"
+		}
+		return t.fail("selector %s is not declared in vars", s), want
 	case *ast.UnaryExpr:
 		if x.Op == token.NOT {
 			return "(decide " + t.prop(x, e) + ")", "bool"
@@ -435,8 +469,32 @@ func lit(v int64) string {
 	return strconv.FormatInt(v, 10)
 }
 
-func (t *trans) leaf(e *env, rets []ast.Expr) string {
+func (t *trans) leaf(e *env, rets []ast.Expr) string { return t.leafCode(e, rets, 3) }
+
+// leafCode builds the result tuple; code is the exit code used with the exitcode option
+// (0 fell off the end, 1 continue, 2 break, 3 return)
+func (t *trans) leafCode(e *env, rets []ast.Expr, code int) string {
 	var parts []string
+	if t.spec.ExitCode {
+		parts = append(parts, strconv.Itoa(code))
+		if code != 3 {
+			// not a return: the return slots are filled with zero values
+			for _, r := range t.spec.Returns {
+				parts = append(parts, zero(r))
+			}
+			for _, o := range t.spec.Out {
+				ln, ok := e.cur[o]
+				if !ok {
+					return t.fail("out variable %s unknown", o)
+				}
+				parts = append(parts, ln)
+			}
+			if len(parts) == 1 {
+				return parts[0]
+			}
+			return "(" + strings.Join(parts, ", ") + ")"
+		}
+	}
 	if len(t.spec.Returns) > 0 {
 		if len(rets) != len(t.spec.Returns) {
 			return t.fail("return with %d values, spec expects %d", len(rets), len(t.spec.Returns))
@@ -502,8 +560,8 @@ func (t *trans) stmts(list []ast.Stmt, e *env, k func(*env) string) string {
 	}
 	s, rest := list[0], list[1:]
 	cont := func(e2 *env) string { return t.stmts(rest, e2, k) }
-	if t.ignore[src(s)] {
-		return cont(e)
+	if t.ignore[src(s)] || strings.HasPrefix(src(s), "Logger.Print") {
+		return cont(e) // explicitly ignored statements and log output
 	}
 	if asg, ok := t.calls[src(s)]; ok {
 		cur := e
@@ -591,7 +649,10 @@ func (t *trans) stmts(list []ast.Stmt, e *env, k func(*env) string) string {
 		cur := e
 		pre := ""
 		if s.Init != nil {
-			return t.fail("if with init statement: %s", src(s.Init))
+			// `if x := e; cond {…}`: translate the init statement first (its scope leaks, which is harmless here
+			// because every Go variable gets a fresh versioned Lean name)
+			inner := &ast.IfStmt{Cond: s.Cond, Body: s.Body, Else: s.Else}
+			return t.stmts(append([]ast.Stmt{s.Init, inner}, rest...), e, k)
 		}
 		c := t.prop(s.Cond, cur)
 		var els []ast.Stmt
@@ -613,8 +674,14 @@ func (t *trans) stmts(list []ast.Stmt, e *env, k func(*env) string) string {
 		var cls []clause
 		for _, c := range s.Body.List {
 			cc := c.(*ast.CaseClause)
-			for _, b := range cc.Body {
+			for bi, b := range cc.Body {
 				if br, ok := b.(*ast.BranchStmt); ok {
+					if br.Tok == token.FALLTHROUGH && bi == len(cc.Body)-1 {
+						continue
+					}
+					if t.spec.ExitCode && br.Tok == token.CONTINUE {
+						continue
+					}
 					return t.fail("branch statement %s in switch", br.Tok)
 				}
 			}
@@ -636,6 +703,19 @@ func (t *trans) stmts(list []ast.Stmt, e *env, k func(*env) string) string {
 			}
 			cls = append(cls, clause{cond, cc.Body})
 		}
+		// fallthrough: a clause ending in `fallthrough` continues with the body of the next clause
+		for i := len(cls) - 1; i >= 0; i-- {
+			b := cls[i].body
+			if n := len(b); n > 0 {
+				if br, ok := b[n-1].(*ast.BranchStmt); ok && br.Tok == token.FALLTHROUGH {
+					next := def
+					if i+1 < len(cls) {
+						next = cls[i+1].body
+					}
+					cls[i].body = append(append([]ast.Stmt{}, b[:n-1]...), next...)
+				}
+			}
+		}
 		var tail ast.Stmt = &ast.BlockStmt{List: def}
 		for i := len(cls) - 1; i >= 0; i-- {
 			tail = &ast.IfStmt{Cond: cls[i].cond, Body: &ast.BlockStmt{List: cls[i].body}, Else: tail}
@@ -644,6 +724,16 @@ func (t *trans) stmts(list []ast.Stmt, e *env, k func(*env) string) string {
 		return t.stmts(append([]ast.Stmt{chain}, rest...), e, k)
 	case *ast.ReturnStmt:
 		return t.leaf(e, s.Results)
+	case *ast.BranchStmt:
+		if t.spec.ExitCode && s.Label == nil {
+			switch s.Tok {
+			case token.CONTINUE:
+				return t.leafCode(e, nil, 1)
+			case token.BREAK:
+				return t.leafCode(e, nil, 2)
+			}
+		}
+		return t.fail("branch statement %s (use the exitcode option for loop bodies)", src(s))
 	case *ast.ExprStmt, *ast.DeferStmt:
 		return t.fail("statement %q is not in the ignore list", src(s))
 	}
@@ -685,6 +775,22 @@ func findFrom(list []ast.Stmt, prefix string) []ast.Stmt {
 			for _, c := range s.Body.List {
 				inner = append(inner, c.(*ast.CommClause).Body)
 			}
+		case *ast.TypeSwitchStmt:
+			for _, c := range s.Body.List {
+				inner = append(inner, c.(*ast.CaseClause).Body)
+			}
+		case *ast.LabeledStmt:
+			inner = append(inner, []ast.Stmt{s.Stmt})
+		}
+		// function literals anywhere inside the statement (closures passed to calls, go/defer func(){…}())
+		if len(inner) == 0 {
+			ast.Inspect(s, func(n ast.Node) bool {
+				if fl, ok := n.(*ast.FuncLit); ok {
+					inner = append(inner, fl.Body.List)
+					return false
+				}
+				return true
+			})
 		}
 		for _, in := range inner {
 			if r := findFrom(in, prefix); r != nil {
@@ -777,11 +883,19 @@ func translateFun(fs *FunSpec) (string, error) {
 	} else {
 		sort.Slice(params, func(i, j int) bool { return params[i].name < params[j].name })
 	}
-	body := t.stmts(list, e, func(e2 *env) string { return t.leaf(e2, nil) })
+	body := t.stmts(list, e, func(e2 *env) string {
+		if fs.ExitCode {
+			return t.leafCode(e2, nil, 0)
+		}
+		return t.leaf(e2, nil)
+	})
 	if t.err != nil {
 		return "", t.err
 	}
 	var rt []string
+	if fs.ExitCode {
+		rt = append(rt, "Int")
+	}
 	for _, r := range fs.Returns {
 		rt = append(rt, leanType(r))
 	}
